@@ -187,6 +187,7 @@ def _int_shapes(L):
 
 def _raw_classes(kind, chain, ascii_only=False):
     """per character class: the raw element values (before the codec chain) that land in it"""
+    chain = tuple(c for c in chain if rope.codec_name(c[1]) != 'ascii')     # ascii is the identity wherever it succeeds
     tab = rope._chain_table(kind, chain) if chain else list(builtins.range(256))
     if tab is None:
         return None
